@@ -161,7 +161,10 @@ class Eraser(object):
                 return True
             if isinstance(t, ast.Attribute) and t.attr in DIAG_FIELDS:
                 v = s.value
-                if self.pure(v) or (isinstance(v, ast.Call) and q.call_name(v) in DIAG_CALLEES):
+                vs = [v]
+                if isinstance(v, ast.IfExp) and (option_test(v.test, self.aliases, self.opts) is not None or self.pure(v.test)):
+                    vs = [v.body, v.orelse]
+                if all(self.pure(x) or (isinstance(x, ast.Call) and q.call_name(x) in DIAG_CALLEES) for x in vs):
                     return True
             return False
         if isinstance(s, ast.AugAssign) and isinstance(s.target, ast.Attribute) and s.target.attr in DIAG_FIELDS and self.pure(s.value):
@@ -273,6 +276,12 @@ def run(R):
                         if isinstance(anc, ast.If) and any(cur is x for x in ast.walk(anc.test)):
                             ok_ctx = True
                             break
+                        if isinstance(anc, ast.IfExp) and any(cur is x for x in ast.walk(anc.test)):
+                            # the test of a conditional expression inside a statement that is diagnostic as a whole
+                            st0 = q.enclosing_stmt(anc)
+                            if Eraser(R, f, aliases, opts).is_diag_stmt(st0):
+                                ok_ctx = True
+                                break
                         if isinstance(anc, ast.stmt):
                             break
                     st_ = q.enclosing_stmt(node)
